@@ -297,7 +297,7 @@ def run(prog, rep, tier):
                   sample={'entry': label, 'decode_id13_argument': 'the 13-bit code' if has_m else 'the 12-bit code with M = 0 re-inserted at bit 6'})
     rep.floor('integer casts examined', len(casts), 3)
     seen = set()
-    for label, fn, csite, (lo, hi), dty, path in casts:
+    for label, fn, csite, (lo, hi), dty, path, _term in casts:
         ty = next(t for t in prog.types if t and t['s'] == dty)
         tlo, thi = A.int_range(ty)
         key = '%s#cast-to-%s' % (fn, dty)
